@@ -18,7 +18,7 @@ pub fn prop() -> Prop {
         max_len: 600,
         quick: 25_000,
         thorough: 500_000,
-        rule: "choice sequence -> base envelope (with unrelated assertions) x multiset of 1-5 attachments (payload envelope of any shape, vendor from a pool of 4 incl. the empty string, conformsTo from {None, 3 values}) with repeated vendors / conformsTo / identical triples, added through add_attachment, Envelope::new_attachment + add_assertion_envelope, or the Attachments container x all four filter combinations with present and absent values; malformed attachment assertions: vendor removed, two vendors, extra assertion on the object, payload not wrapped, non-string vendor / conformsTo, two conformsTo, attachment salted; types: 0-4 known-value and string / envelope types, queried with present and absent types. oracle: attachments() as a set of digests = model set; each attachment_payload is byte-identical to the payload, vendor and conformsTo equal; each filter = model filter; single-result form: 0 => Err, 1 => it, >1 => Err; with any malformed attachment present attachments() and validate_attachment are Err; Attachments::try_from_envelope / add_to_envelope round trip; has_type / has_type_envelope / check_type* true iff the type was added, types() = model set, get_type Ok iff exactly one. non-trivial: >=2 attachments with a filter matching != 1, or a malformed case, or >=2 types; distinct by FNV-64 of the envelope encoding; with a malformed attachment present all 30 filter combinations of both query forms must be Err; a type added through a salted or annotated 'isA' assertion; the Attachments container written onto the envelope it came from, twice, and grown by one; predicates 'attachment' / 'isA' / 'vendor' / 'conformsTo' obscured after the fact (same attachments and types reported); an attachment object under another predicate is not an attachment; the object of an 'isA' assertion obscured",
+        rule: "choice sequence -> base envelope (with unrelated assertions) x multiset of 1-5 attachments (payload envelope of any shape, vendor from a pool of 4 incl. the empty string, conformsTo from {None, 3 values}) with repeated vendors / conformsTo / identical triples, added through add_attachment, Envelope::new_attachment + add_assertion_envelope, or the Attachments container x all four filter combinations with present and absent values; malformed attachment assertions: vendor removed, two vendors, extra assertion on the object, payload not wrapped, non-string vendor / conformsTo, two conformsTo, attachment salted; types: 0-4 known-value and string / envelope types, queried with present and absent types. oracle: attachments() as a set of digests = model set; each attachment_payload is byte-identical to the payload, vendor and conformsTo equal; each filter = model filter; single-result form: 0 => Err, 1 => it, >1 => Err; with any malformed attachment present attachments() and validate_attachment are Err; Attachments::try_from_envelope / add_to_envelope round trip; has_type / has_type_envelope / check_type* true iff the type was added, types() = model set, get_type Ok iff exactly one. non-trivial: >=2 attachments with a filter matching != 1, or a malformed case, or >=2 types; distinct by FNV-64 of the envelope encoding; with a malformed attachment present all 30 filter combinations of both query forms must be Err; a type added through a salted or annotated 'isA' assertion; the Attachments container written onto the envelope it came from, twice, and grown by one; predicates 'attachment' / 'isA' / 'vendor' / 'conformsTo' obscured after the fact (same attachments and types reported); an attachment object under another predicate is not an attachment; the object of an 'isA' assertion obscured; near-miss filters (letter case, trailing / missing character) match nothing",
         assumptions: &["the base envelope is generated without 'attachment' / 'isA' assertions of its own"],
         extra: None,
     }
@@ -171,6 +171,20 @@ pub fn run(data: &[u8], ctx: &mut Ctx) -> Outcome {
                 interesting = true;
             }
             ctx.class(&format!("filter-matches:{}", want.len().min(3)));
+        }
+    }
+    // ---- near-miss filters: a vendor / conformsTo that differs from an added one only in letter case, by
+    // a trailing character or by a missing one matches nothing (filters compare strings exactly)
+    for v in [None, Some("COM.EXAMPLE"), Some("Com.Example"), Some("com.example "), Some("org.verif."), Some("com.exampl"), Some("ORG.VERIF")] {
+        for c in [None, Some("HTTPS://EXAMPLE.COM/V1"), Some("V2"), Some("v2 "), Some("https://example.com/v")] {
+            if v.is_none() && c.is_none() {
+                continue;
+            }
+            let want: BTreeSet<D32> = atts.iter().filter(|a| v.map(|x| x == a.vendor).unwrap_or(true) && c.map(|x| a.conforms == Some(x)).unwrap_or(true)).map(|a| a.digest).collect();
+            let r = nopanic!(ctx, e.attachments_with_vendor_and_conforms_to(v, c), "filter", "C19/filter/near-miss");
+            let r = tryp!(ctx, r.map_err(|x| x.to_string()), "filter", "C19/filter/near-miss");
+            let gd: BTreeSet<D32> = r.iter().map(|a| d32(&a.digest())).collect();
+            check!(ctx, gd == want && r.len() == want.len(), "filter", "C19/filter/near-miss", "filter (vendor {:?}, conformsTo {:?}) returned {} attachments, exact string comparison gives {}", v, c, r.len(), want.len());
         }
     }
     // ---- container round trip
